@@ -43,9 +43,10 @@ def _consts(nodes) -> list[str]:
     return [c.value for n in nodes for c in ast.walk(n) if isinstance(c, ast.Constant) and isinstance(c.value, str)]
 
 
-def _scope_nodes(ctx: Ctx, fn: FuncInfo) -> list[ast.AST]:
-    """The function, the private helpers it uses, and the module-level constants they name."""
-    sc = Scope(ctx, fn)
+def _scope_nodes(ctx: Ctx, fn: FuncInfo, wide: bool = False) -> list[ast.AST]:
+    """The function, the private helpers it uses, and the module-level constants they name (`wide`: also the public methods of
+    its class that it calls - `__str__` may delegate to `to_string` or the other way round)."""
+    sc = Scope(ctx, fn, wide=wide)
     nodes: list[ast.AST] = [f.node for f in sc.funcs]
     mod = ctx.prog.module(MOD)
     _ = mod
@@ -70,7 +71,7 @@ def rule_tokens(ctx: Ctx) -> None:  # noqa: C901
     P = ctx.prog
     ms, asp = P.cls(f"{MOD}.MapSpec"), P.cls(f"{MOD}.ArraySpec")
     a_str, m_str, frm = asp.methods["__str__"], ms.methods["__str__"], ms.methods["from_string"]
-    pr_a, pr_m, ps = _scope_nodes(ctx, a_str), _scope_nodes(ctx, m_str), _scope_nodes(ctx, frm)
+    pr_a, pr_m, ps = _scope_nodes(ctx, a_str, wide=True), _scope_nodes(ctx, m_str, wide=True), _scope_nodes(ctx, frm)
     joins, splits = _join_separators(pr_a), _split_args(ps)
     ctx.tri("1-tokens", a_str, a_str.node, bool(joins) and bool(splits) and {j.strip() for j in joins} <= splits, bool(joins) and bool(splits) and not ({j.strip() for j in joins} & splits),
             "indices are joined with ', ' and split on ',' (+strip)", f"the printer joins indices with {sorted(joins)} but the parser splits on {sorted(splits)}: from_string(str(m)) fails or differs", "index separator not recognised", key="comma")
